@@ -6,6 +6,7 @@ PROP = "C02"
 THEOREM_FILE = "Props/C02.v"
 EXTRA_THEOREM_FILES = ["Props/C02_src.v"]     # source tie: translated source = model (DESIGN 5.1b)
 EXTRA_THEOREM_FILES += ["Props/C02_src_ctor.v"]      # source tie of the netmask setter (int / IPAddress argument)
+EXTRA_THEOREM_FILES.append("Props/C02_code.v")     # (CODA) code-level theorems: the property about the regenerated definitions
 RULE = ("net_attrs: every prefix 0..width of both families x boundary values (0, 1, max, 2^k, 2^k+-1, max-2^k+-1) and "
         "random dense/sparse/aligned values; net_setops: random setter histories (length<=8: ints in/out of range, "
         "IPAddress objects of both versions, contiguous masks and their +-1 / single-bit corruptions, wrong types); "
